@@ -30,9 +30,10 @@ ASSUMPTIONS = [
     "cross-checked on every set",
 ]
 REQUIRED = {"ratios_checked": 3000, "direct_ratio_crosschecks": 100,
-            "solver_queries_checked": 20}
+            "solver_queries_checked": 20,
+            "geometry_steps_rating_checked": 100}
 MIN_NONTRIVIAL = {"quick": 100, "thorough": 800}
-PLAN = [("driven", 240, 3600), ("real", 60, 900)]
+PLAN = [("driven", 240, 3600), ("real", 120, 1800)]
 EPS = np.finfo(float).eps
 
 
@@ -131,7 +132,7 @@ def check_set(models, rng, viols, info, n_cand=3, crosscheck=True):
     if ev is None:
         return
     cond = np.abs(ev).max() / np.abs(ev).min()
-    if not np.isfinite(cond) or cond > 1e8:
+    if not np.isfinite(cond) or cond > 1e11:
         info["sets_skipped"] = info.get("sets_skipped", 0) + 1
         return
     X = exact.points_of(itp.xpt)
@@ -198,6 +199,26 @@ def run_driven(case):
         h = drive.History(rng, n=n, mc_ub=0, mc_eq=0)
         nrep = int(rng.integers(0, 13))
         done = 0
+        if rng.random() < 0.25:
+            # cluster far from the base point (no base shift): every point is
+            # moved next to x_base + R*u with R = 5..100 cluster radii
+            itp = h.itp
+            u = rng.standard_normal(n)
+            u /= np.linalg.norm(u)
+            rad = h.radius * float(10.0 ** rng.uniform(-2, 0))
+            centre = itp.x_base + u * rad * float(rng.uniform(5, 100))
+            for k in range(h.npt):
+                x_new = centre + rng.standard_normal(n) * rad
+                fv, cub, ceq = h.pb(x_new)
+                try:
+                    with warnings.catch_warnings():
+                        warnings.simplefilter("ignore")
+                        h.models.update_interpolation(k, x_new, fv, cub, ceq)
+                except np.linalg.LinAlgError:
+                    break
+                h.ops.append("update:cluster")
+                done += 1
+            nrep = int(rng.integers(0, 4))
         for _ in range(nrep):
             d = h.step("shift" if rng.random() < 0.1 else "update")
             if d is None:
@@ -230,7 +251,9 @@ def run_driven(case):
 def run_real(case):
     rng = e2e.rng_of(ID, case)
     spec = gen.general(rng, n=int(rng.integers(1, 4)), maxfev=(30, 80),
-                       forms=("nlc",))
+                       forms=("nlc",),
+                       con=str(rng.choice(["none", "lin", "nl", "both"],
+                                          p=[0.2, 0.3, 0.3, 0.2])))
     viols = []
     info = {}
     budget = {"left": 4}
@@ -269,14 +292,51 @@ def run_real(case):
                   f"solver query, index {k_new}", info)
         info["queries"] = info.get("queries", 0) + 1
 
+    geo = {"active": False, "queries": [], "checked": 0}
+
+    def on_geo_pre(run, tr, args):
+        geo["active"] = True
+        geo["queries"] = []
+
+    def on_det_any(run, models, args, out):
+        if geo["active"]:
+            geo["queries"].append(np.array(args[0], dtype=float, copy=True))
+
+    def on_geo_post(run, tr, args, out):
+        geo["active"] = False
+        step = np.asarray(out, dtype=float)
+        if not np.all(np.isfinite(step)) or not geo["queries"]:
+            return
+        xb = np.array(tr.x_best, dtype=float)
+        target = xb + step
+        sn = float(np.linalg.norm(step))
+        dist = min(float(np.linalg.norm(q - target)) for q in geo["queries"])
+        geo["checked"] += 1
+        # the returned step is one of the rated candidates (the third one is
+        # clipped onto the box after being rated: allow 2% of its length)
+        if dist > 2e-2 * sn + 64 * EPS * float(np.max(np.abs(target))
+                                                 + 1.0):
+            if len(viols) < 3:
+                viols.append(V(
+                    "geometry_step_not_rated",
+                    f"get_geometry_step returned a step of length {sn:.3g} "
+                    f"whose point was never passed to the determinant ratio "
+                    f"(closest rated candidate at distance {dist:.3g}): the "
+                    f"step was chosen without being rated",
+                    mechanism="unrated_geometry_step"))
+
     def setup(r, rec):
         r.on("models.det.post", on_det)
+        r.on("step.geo.pre", on_geo_pre)
+        r.on("models.det.post", on_det_any)
+        r.on("step.geo.post", on_geo_post)
 
     rec = mrun.run(spec, setup=setup)
     counts = e2e.base_counts(rec)
     counts.update({"ratios_checked": info.get("checked", 0),
                    "solver_queries_checked": info.get("queries", 0),
-                   "solver_queries_seen": seen["n"]})
+                   "solver_queries_seen": seen["n"],
+                   "geometry_steps_rating_checked": geo["checked"]})
     nt = None
     if info.get("queries"):
         nt = "real|" + gen.spec_signature(spec)
